@@ -760,8 +760,36 @@ def check_target_range(ctx, case):
     ctx.nt(('target-range', tuple(order)))
 
 
+def check_hidden_inverted(ctx, case):
+    """inverted limits are a configuration error also for parameters (or whole modules) which are not exported"""
+    from frappy.core import Module, Parameter, FloatRange, StringType, ArrayOf, IntRange
+    how, kind = case.get('how'), case.get('dt')
+    dts = {'double': (lambda: FloatRange(0, 10), {'min': 8, 'max': 2}, 1.0), 'string': (lambda: StringType(0, 10), {'minchars': 8, 'maxchars': 2}, 'abc'),
+           'array': (lambda: ArrayOf(IntRange(0, 9), 0, 5), {'minlen': 4, 'maxlen': 1}, [1])}
+    if kind not in dts or how not in ('hidden-class', 'hidden-cfg', 'hidden-module', 'exported'):
+        return
+    mk, props, default = dts[kind]
+    ctx.ev()
+    cls = type('H', (Module,), {'p': Parameter('internal parameter', mk(), default=default, readonly=False, export=how != 'hidden-class')})
+    pcfg = dict(props)
+    if how == 'hidden-cfg':
+        pcfg['export'] = False
+    cfg = {'h': {'cls': cls, 'description': 'module', 'p': pcfg}}
+    if how == 'hidden-module':
+        cfg['h']['export'] = False
+    kit = Kit(cfg)
+    if 'h' in kit.modules or not kit.errors:
+        ctx.finding(f'bad-config-accepted:inverted:{how}', case, f'{props!r} accepted; errors {kit.errors!r}')
+    else:
+        ctx.ok('inverted-limits-refused')
+    ctx.nt(('hidden-inverted', how, kind))
+
+
 def run_shard(ctx, shard):
     if shard['idx'] == 'names':
+        for how in ('exported', 'hidden-class', 'hidden-cfg', 'hidden-module'):
+            for kind in ('double', 'string', 'array'):
+                check_hidden_inverted(ctx, {'kind': 'hidden-inverted', 'how': how, 'dt': kind})
         for order in (['good', 'bad'], ['bad', 'good'], ['good', 'good', 'bad'], ['good', 'bad', 'good']):
             check_target_range(ctx, {'kind': 'target-range', 'order': order})
         for name in NAME_FIXED:
@@ -782,6 +810,8 @@ def run_case(ctx, case):
         check_name(ctx, case)
     elif case['kind'] == 'target-range':
         check_target_range(ctx, case)
+    elif case['kind'] == 'hidden-inverted':
+        check_hidden_inverted(ctx, case)
     else:
         if case.get('cfg', {}).get('description') == '':
             return      # (shrinker artefact: an empty description is left out of the description of the node)
